@@ -166,7 +166,7 @@ def correspondence(ctx):
     # ---- library modules: linearity / twice / states untouched (oracle on the real code) ----------------------
     per = 3 if ctx.quick else 25
     for fam, gen in zoo.GENERATORS.items():
-        for _ in range(per):
+        for _ in range(per * 4 if fam == "eigensolve_sparse" else per):   # per-mode adjoint solver caches: more cases
             case = gen(ctx.nprng)
             r = call_impl(zoo.linearity_oracle, case, ctx.nprng)
             ctx.evaluations += 1
